@@ -73,6 +73,9 @@ def cases(ctx):
     for outer in ("hex", "hexcu", "cart", "cartoff"):
         for inner in (None, "hex", "hexcu", "cart"):
             out.append({"kind": "nest", "outer": outer, "inner": inner, "rings": 3 if ctx.quick else 4})
+            # boundary counts: one and two axial cells (a single-block assembly has a one-cell axial grid)
+            out.append({"kind": "nest", "outer": outer, "inner": inner, "rings": 3, "nz": 1})
+            out.append({"kind": "nest", "outer": outer, "inner": inner, "rings": 2, "nz": 2})
     for gk in ("hex", "hexcu", "cart", "cartoff"):
         out.append({"kind": "gridhist", "grid": gk, "len": 4 if ctx.quick else 5})
     for outer in ("cart", "hex", "hexcu"):
@@ -462,7 +465,7 @@ def _eval_nest(case):
     top = composites.Composite("core")
     root.add(top)
     top.spatialGrid = mk(case["outer"], top, n)
-    zb = [0.0, 10.0, 25.0, 26.0]
+    zb = [0.0, 10.0, 25.0, 26.0][: case.get("nz", 3) + 1]  # nz = 1: a one-cell axial grid (single-block assembly)
     nev = 0
     cells = hex_cells(n) if case["outer"].startswith("hex") else list(itertools.product(range(-n + 1, n), repeat=2))
     ref = mk(case["outer"], None, n)
@@ -472,7 +475,7 @@ def _eval_nest(case):
         a.spatialLocator = top.spatialGrid[i, j, 0]
         a.spatialGrid = grids.AxialGrid(bounds=(None, None, np.array(zb)), armiObject=a)
         oxy = ref.getCoordinates((i, j, 0))
-        for k in range(3):
+        for k in range(len(zb) - 1):
             nev += 1
             b = composites.Composite("b")
             a.add(b)
@@ -489,7 +492,7 @@ def _eval_nest(case):
             ob, ot = ref.getCellBase((i, j, 0)), ref.getCellTop((i, j, 0))
             if not _close(base, (ob[0], ob[1], zb[k])) or not _close(topc, (ot[0], ot[1], zb[k + 1])):
                 bad("nest-base-top", "global base/top of axial cell %d in (%d,%d) wrong" % (k, i, j), cell=[i, j, k])
-            if case["inner"] and k == 1 and hexdist(i, j) <= 1:
+            if case["inner"] and k == min(1, len(zb) - 2) and hexdist(i, j) <= 1:
                 b.spatialGrid = mkpin(case["inner"], b)
                 pref = mkpin(case["inner"], None)
                 for pi, pj in ((0, 0), (1, 0), (0, 1), (-1, 1), (1, -1), (-1, 0), (0, -1)):
